@@ -68,8 +68,8 @@ def status_of(o):
     return 'fail', run['out']
 
 
-def source_record(i, ast, status, out, mode='holder'):
-    return {'id': i, 'ast': number(ast), 'names': names_of(ast), 'mode': mode, 'status': status, 'out': out}
+def source_record(i, ast, status, out, mode='holder', wantshapes=False):
+    return {'id': i, 'ast': number(ast), 'names': names_of(ast), 'mode': mode, 'status': status, 'out': out, 'wantshapes': wantshapes}
 
 
 def validate(records, workdir, tag='src', per_batch=120, jvms=4, workers=4, budget=20000, timeout=1800):
@@ -78,8 +78,10 @@ def validate(records, workdir, tag='src', per_batch=120, jvms=4, workers=4, budg
 
     def one(bi):
         path = os.path.join(workdir, '%s.batch%d.ndjson' % (tag, bi))
+        for rec in batches[bi]:
+            rec['budget'] = budget
         write_ndjson(path, batches[bi])
-        r = tlc_or_die('TraceSource', env={'PROGS': path, 'BUDGET': str(budget)}, workers=workers, timeout=timeout, tag='%s%d' % (tag, bi))
+        r = tlc_or_die('TraceSource', env={'PROGS': path}, workers=workers, timeout=timeout, tag='%s%d' % (tag, bi))
         vs = r.lines.get('VERDICT', [])
         ids = {v['id'] for v in vs}
         if len(ids) != len(batches[bi]):
